@@ -412,7 +412,7 @@ func unblockCell(w *sched.W, kind, how string) {
 	_ = t.Close(true)
 }
 
-// telnetNegCell: the server's opening (two option negotiations, then text) reaches the client in two TCP
+// telnetNegCell: the server's opening (two option negotiations around a two-byte command, then text) reaches the client in two TCP
 // segments cut at byte cutAt: the text, and nothing else, is returned by the first reads and both requests
 // are answered. Generous real-time margins: the halves are 20ms apart, the client waits 1s/2s per byte.
 func telnetNegCell(w *sched.W, rs, cutAt int) {
@@ -421,7 +421,7 @@ func telnetNegCell(w *sched.W, rs, cutAt int) {
 		return
 	}
 	w.Case(tag, tag)
-	opening := []byte{255, 253, 1, 255, 251, 3} // IAC DO ECHO, IAC WILL SGA
+	opening := []byte{255, 253, 1, 255, 241, 255, 251, 3} // IAC DO ECHO, IAC NOP, IAC WILL SGA
 	wantReplies := []byte{255, 252, 1, 255, 253, 3}
 	text := []byte("login: ")
 	var mu sync.Mutex
@@ -646,7 +646,7 @@ func scenarios(tier string) []sched.Scenario {
 		for _, half := range []int{0, 1} {
 			rs, half := rs, half
 			out = append(out, sched.Scenario{Name: fmt.Sprintf("telnet-neg/rs=%d/%d", rs, half), Run: func(w *sched.W) {
-				for cutAt := 1 + 3*half; cutAt <= 3+3*half && cutAt < 6; cutAt++ {
+				for cutAt := 1 + 4*half; cutAt <= 4+4*half && cutAt < 8; cutAt++ {
 					telnetNegCell(w, rs, cutAt)
 				}
 			}})
